@@ -72,15 +72,15 @@ def build_generated_db(path: Path, seed: int, nflights: int):
             o, d = rng.sample(hubs, 2)
         else:
             o, d = rng.sample(codes, 2)
-        miles = rng.choice([rng.randint(20, 9000), 500, 1000, 2500])
+        miles = rng.choice([rng.randint(20, 9000), rng.randint(20, 9000), 500, 1000, 2500, 0])   # 0: distance not stated
         dist = miles * 1.609344
-        seats = rng.choice([rng.randint(0, 550), 100, 180, 300])
+        seats = rng.choice([rng.randint(0, 550), rng.randint(0, 550), 100, 180, 300, 0])       # 0: all-cargo
         cur.execute(
             'INSERT INTO flights (id, carrier, flight_number, origin, destination, day_of_week_mask, departure_time, '
             'arrival_time, arrival_day_offset, service_type, aircraft_type, engine_type, distance, seat_capacity, '
             'effective_from, effective_to, number_of_flights, od_pair) VALUES (?,?,?,?,?,?,?,?,?,?,?,?,?,?,?,?,?,?)',
             (fid, rng.choice(['BA', 'AA', 'QF', 'NZ', '9W']), str(rng.randint(1, 9999)), ids[o], ids[d], 127, 600, 700, 0,
-             rng.choice(['J', 'J', 'J', 'F', 'C', 'S']), rng.choice(['738', '320', '77W', '359', 'E90']),
+             rng.choice(['J', 'J', 'J', 'J', 'F', 'C', 'S', '']), rng.choice(['738', '320', '77W', '359', 'E90', '']),
              rng.choice(['', '', 'CFM56', 'GE90', None]),
              dist, seats, '2019-03-01', '2019-04-15', 0, min(o, d) + max(o, d)))
         n = rng.choice([1, 1, 2, 3, 4, 6, 0])          # some flights have no instance at all
@@ -211,6 +211,8 @@ def gen_box(rng, w: World):
 
 
 def _dist_bound(rng, w: World):
+    if rng.random() < 0.12:
+        return rng.choice([0, 0.0])             # falsy but set
     if rng.random() < 0.5:
         return rng.choice(w.dists)              # exactly a stored distance (inclusive boundary)
     for _ in range(50):
@@ -225,6 +227,8 @@ def _lst(rng, pool, extra):
     v = rng.sample(pool, min(k, len(pool)))
     if rng.random() < 0.1:
         v.append(extra)
+    if rng.random() < 0.04:
+        return rng.choice(['', ['']])            # the empty string is a value, not "unset"
     if len(v) == 1 and rng.random() < 0.5:
         return v[0]                              # plain string form
     return v
@@ -299,9 +303,9 @@ def gen_filter(rng, w: World):
             and rng.random() < 0.8:
         flt['min_distance'], flt['max_distance'] = flt['max_distance'], flt['min_distance']
     if rng.random() < 0.15:
-        flt['min_seat_capacity'] = rng.choice(w.seats + [rng.randint(0, 300)])
+        flt['min_seat_capacity'] = rng.choice(w.seats + [rng.randint(0, 300), 0])
     if rng.random() < 0.15:
-        flt['max_seat_capacity'] = rng.choice(w.seats + [rng.randint(100, 500)])
+        flt['max_seat_capacity'] = rng.choice(w.seats + [rng.randint(100, 500), 0])
     if rng.random() < 0.2:
         flt['service_type'] = _lst(rng, w.services, 'Q') if rng.random() < 0.9 else []
     if rng.random() < 0.15:
@@ -397,6 +401,43 @@ def value_cases(w: World):
     return out
 
 
+def falsy_cases(w: World):
+    """Falsy-but-set values wherever a parameter is optional.  Reading of the property: a parameter is unset only when
+    it is None.  0 / 0.0 are bounds like any other (max_seat_capacity=0 selects the all-cargo instances, max_distance=0
+    the instances without a stated distance, min_* = 0 everything); '' is a code that simply matches the rows storing
+    ''; offset=0 skips nothing; every_nth=1 keeps every day; sample=1.0 keeps everything; limit=0, every_nth=0 and
+    sample=0.0 are refused as invalid."""
+    out = []
+    some_country = w.countries[:2] or ['US']
+    filters = [
+        {'max_seat_capacity': 0}, {'min_seat_capacity': 0}, {'max_distance': 0}, {'max_distance': 0.0},
+        {'min_distance': 0}, {'min_distance': 0.0},
+        {'min_seat_capacity': 0, 'max_seat_capacity': 0}, {'min_distance': 0.0, 'max_distance': 0.0},
+        {'max_seat_capacity': 0, 'country': list(some_country)}, {'max_distance': 0, 'min_seat_capacity': 0},
+        {'max_seat_capacity': 0, 'service_type': list(w.services[:2]) or ['J']},
+        {'max_distance': 0.0, 'origin_continent': list(w.continents[:2]) or ['EU']},
+        {'min_distance': 0, 'max_seat_capacity': max(w.seats or [0])},
+        {'service_type': ''}, {'aircraft_type': ''}, {'service_type': ['']}, {'airport': ''}, {'origin_country': ''},
+        {'destination_continent': ['']}, {'airport': '', 'max_seat_capacity': 0},
+    ]
+    for flt in filters:
+        for kind in ('query', 'count', 'frequent'):
+            out.append(_case(w, kind, dict(flt), 'falsy', plan=['run', 'run'] if kind == 'count' else ['run']))
+    base = {'max_seat_capacity': 0}
+    out.append(_case(w, 'query', None, 'falsy', limit=5, offset=0))
+    out.append(_case(w, 'query', dict(base), 'falsy', limit=5, offset=0, plan=['run', 'run']))
+    out.append(_case(w, 'query', None, 'falsy', limit=0))
+    out.append(_case(w, 'query', None, 'falsy', limit=0, offset=0))
+    out.append(_case(w, 'query', dict(base), 'falsy', nth=1))
+    out.append(_case(w, 'query', None, 'falsy', nth=1, start=_date_of(w.days[0])))
+    out.append(_case(w, 'query', None, 'falsy', nth=0))
+    out.append(_case(w, 'query', dict(base), 'falsy', sample=1.0, plan=['run', 'run']))
+    out.append(_case(w, 'query', None, 'falsy', sample=0.0))
+    out.append(_case(w, 'frequent', dict(base), 'falsy', limit=0))
+    out.append(_case(w, 'frequent', {'min_distance': 0}, 'falsy', limit=1))
+    return out
+
+
 def midnight_cases(w: World):
     """Date bounds against departures at exactly 00:00:00 and 23:59:59 UTC: end_date = D keeps 23:59:59 of D and
     excludes 00:00:00 of D+1; start_date = D keeps 00:00:00 of D."""
@@ -455,6 +496,7 @@ def empty_db_cases(w: World):
     out.append(_case(w, 'query', None, 'empty-db', limit=5, offset=2))
     out.append(_case(w, 'query', None, 'empty-db', sample=0.5, plan=['run', 'run']))
     out.append(_case(w, 'query', {'airport': 'LHR', 'origin_country': 'US'}, 'illegal'))
+    out += [c for c in falsy_cases(w) if c['kind'] != 'frequent' or c['limit']][:40]
     return out
 
 
@@ -1005,7 +1047,8 @@ def run(chk: Check):
                 'departures, flights without instances, instances stored twice), the shipped test database and an '
                 'empty database; fixed streams: no filter / Filter() / only-empty-lists filters for every query class '
                 'run 1-4 times with to_sql in between (also sampled), date bounds against departures at 00:00:00 and '
-                '23:59:59 UTC, boxes on both ends at once, pairs of queries consumed alternately on one Database; non-trivial = a non-empty filter with a non-empty answer, '
+                '23:59:59 UTC, falsy-but-set values (0, 0.0, empty string, offset 0, every_nth 1, sample 1.0; limit 0 / '
+                'every_nth 0 / sample 0.0 refused), boxes on both ends at once, pairs of queries consumed alternately on one Database; non-trivial = a non-empty filter with a non-empty answer, '
                 'or a plan with more than one build, or an illegal mix, or an empty filter')
     chk.trusted += ['translator/c14_extract.py', 'harness/c14.py (row export, comparison modulo ties)',
                     'SQLite as evaluator of the generated SQL (incl. R-tree), sqlite3 module: exercised, not modelled']
@@ -1032,7 +1075,7 @@ def run(chk: Check):
     corpus = load_corpus(chk)
     for name, n in (('generated', chk.n(330, 3000)), ('shipped', chk.n(130, 1200))):
         w = worlds[name]
-        cases = ([c for c in corpus if c['db'] == name] + sample_cases(w) + value_cases(w) + midnight_cases(w)
+        cases = ([c for c in corpus if c['db'] == name] + sample_cases(w) + value_cases(w) + falsy_cases(w) + midnight_cases(w)
                  + both_ends_box_cases(chk.rng, w) + [gen_case(chk.rng, w) for _ in range(n)])
         for c in cases:
             c['db_seed'], c['db_n'] = db_seed, db_n
